@@ -34,7 +34,7 @@ RULE = (
 )
 ASSUMPTIONS = ["integer-like dict keys are excluded (confectioner treats '0' as a list index)"]
 FLOORS = {"option_cases": (15000, 60000), "present_falsy": (3000, 12000), "absent_default": (2500, 2500),
-          "domain_decided": (500, 1500), "option_history_steps": (5000, 20000), "namespace_member_checks": (1500, 30000), "set_cases": (1500, 30000)}
+          "domain_decided": (500, 1500), "option_history_steps": (5000, 20000), "namespace_member_checks": (1500, 30000), "set_cases": (1500, 30000), "string_default_cases": (650, 650)}
 SHARDS_QUICK = 4
 
 KEYS = ["A", "S", "S.X", "S.Y", "T.X", "L", "L.0", "L.1", "L.2", "S.X.Z"]
@@ -426,8 +426,46 @@ def set_case(ctx, r, key=None):
         ctx.nontrivial(spec_hash(["set", key, v, o_in]))
 
 
+STRING_DEFAULTS = ["", "plain", "{B}", "x{B}y", "{S.Y}/{B}", "{Q}", r"\{lit\}", r"a\{b", r"b\}c", r"\{\}", r"{B}\{k\}", r"\{B\}", r"\{{B}\}", "  ", "{B}{B}"]
+STRING_BASES = [{}, {"B": "b"}, {"B": 0, "S": {"Y": "sy"}}, {"B": "bb", "S": {"X": 1, "Y": 2}, "Q": None}, {"B": "{C}", "C": "c", "S": {"Y": ""}}]
+
+
+def string_default_family(ctx):
+    """Template-default clause: a string default (escaped braces included) is a template evaluated against the same
+    options - through the constructor default, the positional default and a namespace member; oracle = the independent
+    substitution of the reference interpreter."""
+    from labrea import Option
+
+    for key in ["A", "S.X", "T.X"]:
+        for text in STRING_DEFAULTS:
+            @Option.namespace("NS")
+            class NS:  # noqa: N801
+                M: str = text
+            variants = {"default=": Option(key, default=text), "positional": Option(key, text), "namespace member": NS.M}
+            for base in STRING_BASES:
+                o = U.del_path(U.del_path(copy.deepcopy(base), key), "NS")
+                want = Ref({"datasets": {}, "root": {"k": "tmpl", "text": text, "params": []}}).run(copy.deepcopy(o))
+                for how, opt in variants.items():
+                    with labrea.cache.disabled():
+                        got = observe(opt.evaluate, copy.deepcopy(o))
+                    ctx.evaluations += 1
+                    ctx.count("string_default_cases")
+                    W = {"family": "string-default", "key": key, "text": text, "options": o, "how": how}
+                    if got[:2] != want[:2]:
+                        ctx.violation("string-default-vs-substitution", f"Option({key!r}) with the default {text!r} ({how}) on {short(o)} gives {short(got)}; independent substitution gives {short(want)}", W)
+                        return
+                    if "{" in text:
+                        ctx.nontrivial(spec_hash(["strdef", key, text, how, o]))
+
+
+def canon_keys(outcome):
+    return {k[1] for k in outcome[1][1]}
+
+
 def run(ctx):
     exhaustive(ctx)
+    if ctx.shard == 0:
+        string_default_family(ctx)
     if ctx.shard == 0:
         scalar_sections(ctx)
     n = ctx.n(160, 3000)
@@ -444,7 +482,9 @@ def run(ctx):
 
 def replay(ctx, rep):
     w = rep["witness"]
-    if "program" in w:
+    if w.get("family") == "string-default":
+        string_default_family(ctx)
+    elif "program" in w:
         s = w["program"]["root"]
         option_case(ctx, s["key"], s.get("dk", "none"), s.get("dv"), s.get("dom"), w["options"], "replay")
     else:
